@@ -127,7 +127,7 @@ func TestStrings(t *testing.T) {
 	if spec.RefCRC16([]byte("123456789")) != 0x4B37 || spec.PolyCRC16([]byte("123456789")) != 0x4B37 {
 		t.Fatalf("reference implementations disagree with the published check value")
 	}
-	chkStrings.Rapid(t, harness.Pick(20000, 200000))
+	chkStrings.Rapid(t, harness.Pick(20000, 1000000))
 }
 
 // ---------------------------------------------------------------------------
@@ -242,7 +242,7 @@ var chkEmit = harness.Define("crc-emission", genEmit,
 	})
 
 func TestEmission(t *testing.T) {
-	chkEmit.Rapid(t, harness.Pick(10000, 100000))
+	chkEmit.Rapid(t, harness.Pick(10000, 500000))
 	if harness.Thorough() {
 		// all exception frames: 128 functions x 256 codes (unit sampled)
 		idx := 0
@@ -367,9 +367,9 @@ func genEnforce(t *rapid.T) enforceCase {
 var chkEnforce = harness.Define("crc-enforcement", genEnforce, runEnforce)
 
 func TestEnforcement(t *testing.T) {
-	chkEnforce.Rapid(t, harness.Pick(20000, 100000))
+	chkEnforce.Rapid(t, harness.Pick(20000, 500000))
 	// all 65536 trailers on a set of frames per function (both directions)
-	frames := harness.Pick(2, 8)
+	frames := harness.Pick(2, 24)
 	idx := 0
 	total := int64(0)
 	for _, fc := range spec.Functions {
